@@ -28,7 +28,7 @@ HERE = os.path.dirname(os.path.dirname(os.path.abspath(__file__)))
 ALL = ['C%02d' % i for i in range(1, 21)]
 
 
-from .runner import Result, scratch, _scratch_root  # noqa: E402,F401
+from .runner import Result, StopChunk, scratch, _scratch_root  # noqa: E402,F401
 
 
 def _worker(args):
@@ -36,7 +36,12 @@ def _worker(args):
     try:
         mod = importlib.import_module('vt.props.' + pid.lower())
         os.chdir(scratch())
-        res = mod.run_chunk(chunk)
+        try:
+            res = mod.run_chunk(chunk)
+        except StopChunk as stop:
+            res = stop.result
+            res.capped = True
+            res.extra['chunks_aborted_after_many_violations'] = 1
         for v in res.violations:
             v['chunk'] = chunk
         return chunk_index, res, None
